@@ -27,6 +27,7 @@ RULE = (
     "the corpus; Hypothesis profile 'replay' with both call_returns_result values. Non-trivial: a rewind or helper plan "
     "executed between a yield and its resumption (the message was replayed or was in flight at an interruption). "
     "Distinct = canonical JSON."
+    " Also every yield as the plan's own code sees it inside its preprocessors (identical to what came back for that message outside; None for messages deleted by stub_wrapper / a dropping msg_mutator)."
 )
 ASSUMPTIONS = ["requests arrive at boundaries between event-loop callbacks"]
 
